@@ -29,6 +29,9 @@ type oracles struct {
 	replaysSeen int
 	storeSeen   map[uint64]string // header store entries already certified (hash|proof digest)
 	cvSeen      string            // committing view already certified
+
+	// C10: every vote signature ever seen in the round store at a quiescent point, per (height, round) and kind.
+	everPV, everPC map[[2]uint64]map[string]bool
 }
 
 func newOracles(s *sys, res *vx.Result, props []string) *oracles {
@@ -458,6 +461,9 @@ func (o *oracles) checkValSets(sn snap) {
 func (o *oracles) afterStep(before, after snap, a applied) {
 	s := o.s
 	o.prevSnap = after
+	if o.on["C10"] {
+		o.notePersisted(after)
+	}
 	// C09: defined results, nothing blocked, node answers.
 	if o.on["C09"] {
 		if a.result == "BLOCKED" {
